@@ -309,8 +309,12 @@ pub fn check(c: &Case) -> CheckResult {
     o.class_if(tmin < 0.0, "t<0-seen");
     o.class_if(tmax > 1.0, "t>1-seen");
     o.class_if(a255 < 255.0, "alpha<1");
+    if let SrcSpec::TwoCircle { r1, .. } = &c.src {
+        o.class_if(*r1 == 0.0, "twocircle:focal-point");
+    }
     if let SrcSpec::TwoCircle { x1, y1, x2, y2, .. } = &c.src {
         o.class_if(x1 == x2 && y1 == y2, "twocircle:concentric");
+        o.class_if((x1 == x2) != (y1 == y2), "twocircle:centres-share-one-coordinate");
     }
     if let SrcSpec::Linear { x0, y0, x1, y1, .. } = &c.src {
         o.class_if(y0 == y1 && x1 < x0, "linear:horizontal-right-to-left");
@@ -361,7 +365,7 @@ pub fn property(ctx: &Ctx) -> Property {
         rule: "cases: linear (extent >= 1 px), radial (r >= 1), two-circle (first circle strictly inside the second) and sweep gradients built with the Source::new_* constructors; 1-5 stops at strictly increasing positions (gaps >= 0.02, ends not necessarily 0/1) with random unpremultiplied colours or probe ramps; Pad/Repeat/Reflect; global alpha; identity or any invertible CTM; 4..24 px surfaces, rendered with a full-surface Src fill. Oracle: f64 parameter t per pixel centre (through the inverse CTM) by the statement's definitions, colour = piecewise-linear interpolation of the unpremultiplied stops after the spread map, premultiplied and scaled by alpha; every channel must lie within 4/255 of the range that colour takes for t within 3/255 (+|t|/255 for two-circle and sweep) of the pixel's t; Pad pixels beyond an end all show one identical colour; two-circle pixels without admissible circle are transparent. Non-trivial: >=3 distinct colours on the surface and t spanning >= 0.25; distinct by hash of the case.",
         assumptions: vec!["sweep pixels within 1.5 px of the centre or within 0.75 px of the angle-0 ray are not judged (angle discontinuity inside the pixel)"],
         parts: vec![part("render", 60_000, 1_000_000, move || strategy(&c), check)],
-        min_class_fraction: vec![("render", "src:linear", 0.15), ("render", "src:radial", 0.15), ("render", "src:twocircle", 0.15), ("render", "src:sweep", 0.15), ("render", "spread:reflect", 0.2), ("render", "t>1-seen", 0.3), ("render", "t<0-seen", 0.1), ("render", "linear:horizontal-right-to-left", 0.005), ("render", "linear:vertical", 0.01)],
+        min_class_fraction: vec![("render", "src:linear", 0.15), ("render", "src:radial", 0.15), ("render", "src:twocircle", 0.15), ("render", "src:sweep", 0.15), ("render", "spread:reflect", 0.2), ("render", "t>1-seen", 0.3), ("render", "t<0-seen", 0.1), ("render", "linear:horizontal-right-to-left", 0.005), ("render", "linear:vertical", 0.01), ("render", "twocircle:focal-point", 0.02), ("render", "twocircle:centres-share-one-coordinate", 0.03)],
         panic_is_violation: false,
     }
 }
